@@ -26,13 +26,22 @@ CTX = [
     ("Option<Map<Vec>>", lambda x: ("opt", ("bmap", rg.P("String"), ("vec", x)))),
     ("ref", lambda x: ("ref", x)),
 ]
+# type names that begin like the containers / primitives the tool recognises by string prefix, and other awkward shapes
+NAME_POOL = ["Options", "OptionalFeature", "Option_", "Vec3", "Vector", "VecDeque2", "HashSetStats", "HashMapper", "BTreeMapView", "BTreeSetLike",
+             "Results", "ResultSet", "Stringy", "StringList", "Str", "Boolean", "Bool", "I32Wrapper", "U8", "F64x", "Usize", "Channel2", "ChannelMsg",
+             "Record", "Tuple", "Unit", "Boxed", "ArcItem", "T", "A", "Z9", "Item_V2", "HTTPResponse", "State2", "Window2", "AppHandle2", "Event", "Error",
+             "Self_", "Some", "None_", "Ok", "Err", "Node", "User", "Config"]
 ROOT_KINDS = ["param", "return", "return-result-ok", "channel", "event-typed-param", "event-struct-expr", "event-let"]
 HDR = rg.PRELUDE + "use tauri::{AppHandle, Emitter, ipc::Channel};\n\n"
 
 
 def gen_case(rnd, idx, forced_ctx=None, forced_root=None, n=None):
     n = n or rnd.randint(2, 10)
-    names = ["T%d_%d" % (idx, i) for i in range(n)]
+    if rnd.random() < 0.5:
+        names = ["T%d_%d" % (idx, i) for i in range(n)]
+    else:
+        pool = rnd.sample(NAME_POOL, n)
+        names = [pool[i] if rnd.random() < 0.5 else "%s%dx%d" % (pool[i], idx, i) for i in range(n)]
     kinds = ["enum" if (i > 0 and rnd.random() < 0.2) else "struct" for i in range(n)]
     edges = {}  # i -> list of (j, ctxlabel, type)
     for i in range(n):
@@ -64,7 +73,7 @@ def gen_case(rnd, idx, forced_ctx=None, forced_root=None, n=None):
     # error-arm-only type
     err_only = None
     if rnd.random() < 0.4:
-        err_only = "E%d_err" % idx
+        err_only = "E%d_err" % idx if rnd.random() < 0.5 else "ErrorKind%d" % idx
     body = {}
     for i in range(n):
         fields = [("id", "i32")]
